@@ -598,6 +598,27 @@ Proof.
   rewrite err_if_false by (apply range_chk; assumption). reflexivity.
 Qed.
 
+(* the per-table phase for the option set of build_index (TSK_CHECK_EDGE_ORDERING only) *)
+Lemma check_edge_ordering_complete v t :
+  WF t -> SeqlenOK t -> OffsetsOK t -> NodesOK t -> EdgeRowsOK t -> EdgeOrderOK t -> SitesOK t ->
+  MutRowsOK t -> MutOrderOK t -> MutKnownUnknownOK t -> MigsOK t -> IndsOK t ->
+  check_integrity v opts_edge_ordering t = Ok 0.
+Proof.
+  intros W [Lz [HL HLpos]] VOff VN VER VEO VS VMR VMO VMX VMig VInd. unfold check_integrity.
+  change (imply_trees opts_edge_ordering) with opts_edge_ordering.
+  rewrite err_if_false.
+  2:{ rewrite HL. unfold F0. rewrite fle_fin. simpl. rewrite andb_false_r.
+      apply orb_false_intro'; [apply Z.leb_gt; lia|reflexivity]. }
+  rewrite (offsets_complete t W VOff). cbn [bind].
+  rewrite (nodes_complete t opts_edge_ordering eq_refl W VN). cbn [bind].
+  rewrite (edges_complete t opts_edge_ordering eq_refl W VN VER VEO). cbn [bind].
+  rewrite (sites_complete t opts_edge_ordering VS). cbn [bind].
+  rewrite (muts_complete t opts_edge_ordering W VN VMR VMO VMX). cbn [bind].
+  rewrite (migs_complete t opts_edge_ordering eq_refl W VMig). cbn [bind].
+  rewrite (inds_complete t opts_edge_ordering eq_refl W VInd). cbn [bind].
+  reflexivity.
+Qed.
+
 Theorem check_complete_lemma v t :
   WF t -> ValidTS t -> 2 * num_edges t + 1 < TSK_MAX_ID ->
   exists n, check_integrity v opts_trees t = Ok n /\
@@ -608,13 +629,13 @@ Proof.
   rewrite err_if_false.
   2:{ rewrite HL. unfold F0. rewrite fle_fin. simpl. rewrite andb_false_r.
       apply orb_false_intro'; [apply Z.leb_gt; lia|reflexivity]. }
-  rewrite (offsets_complete t W V). cbn [bind].
-  rewrite (nodes_complete t W V). cbn [bind].
-  rewrite (edges_complete t W V). cbn [bind].
-  rewrite (sites_complete t V). cbn [bind].
-  rewrite (muts_complete t W V). cbn [bind].
-  rewrite (migs_complete t W V). cbn [bind].
-  rewrite (inds_complete t W V). cbn [bind].
+  rewrite (offsets_complete t W (v_offsets t V)). cbn [bind].
+  rewrite (nodes_complete t oT eq_refl W (v_nodes t V)). cbn [bind].
+  rewrite (edges_complete t oT eq_refl W (v_nodes t V) (v_edge_rows t V) (v_edge_order t V)). cbn [bind].
+  rewrite (sites_complete t oT (v_sites t V)). cbn [bind].
+  rewrite (muts_complete t oT W (v_nodes t V) (v_mut_rows t V) (v_mut_order t V) (v_mut_mix t V)). cbn [bind].
+  rewrite (migs_complete t oT eq_refl W (v_migs t V)). cbn [bind].
+  rewrite (inds_complete t oT eq_refl W (v_inds t V)). cbn [bind].
   cbn [oT imply_trees opts_trees o_trees o_indexes].
   rewrite (index_complete t W (v_index t V)). cbn [bind].
   destruct (v_index t V) as [I [O [EI [PI PO]]]].
